@@ -57,6 +57,9 @@ def check(ctx):
     check_repairs(ctx, "C04.repairs")
     check_position(ctx)
     check_retire_order(ctx)
+    # an active intent that recovery refuses to decode is never replayed: an interrupted repair stays half-done
+    from rules import C03
+    C03.check_journal_validity(ctx, "C04.journal-validity", None)
 
 
 def check_position(ctx, inst="C04.position"):
